@@ -40,6 +40,7 @@ __attribute__((constructor(101))) static void before_main(void) {
     }
     polyseed_crypt(s, "before main"); polyseed_store(s, g_pre.img_crypt);
     polyseed_free(s);
+    polyseed_enable_features(0);          /* back to "no user feature enabled", which is what the sections that follow start from */
 }
 /* what: 1 phrases vs model, 2 decoding of those phrases, 4 created seed / serialisation / queries / KDF inputs vs model, 8 password operation */
 void pv_premain_judge(const char* prop, unsigned what) {
